@@ -11,7 +11,7 @@ class Unit:
                  kind="proof", tier="quick", bounds=None, defines=(), lib=("lib/libc_stubs.c",),
                  cbmc_flags=(), checks=None, pre_instrument=(), post_instrument=(), timeout=300,
                  min_obligations=5, small=(), native=None, functions=None, callees=None,
-                 assumptions=(), nobody_ok=(), malloc_may_fail=False, cost=10, contracts=None, plain=False, replace_contracts=None, drop_bodies=()):
+                 assumptions=(), nobody_ok=(), malloc_may_fail=False, cost=10, contracts=None, plain=False, replace_contracts=None, drop_bodies=(), repo_variants=()):
         self.plain = plain
         self.name, self.props, self.entry = name, list(props), entry
         self.spec, self.repo, self.enforce = list(spec), list(repo), enforce
@@ -31,6 +31,8 @@ class Unit:
         self.replace_contracts = dict(replace_contracts or {})
         # callees defined in the unit's own repo files whose bodies are removed so that a contract stub in the spec TU is linked instead
         self.drop_bodies = list(drop_bodies)
+        # [(repo file, [extra -D...])]: additional compilations of a repo file under renaming defines
+        self.repo_variants = [(f, list(x)) for f, x in repo_variants]
 
     def contract_name(self, fn):
         return self.contracts.get(fn, fn.replace("__CPROVER_file_local_", "fl_") + "__contract")
